@@ -12,7 +12,7 @@ RULE = (
     "Non-trivial = the handler outcome is not a plain successful return, or neighbours ran concurrently; distinct = distinct cells / distinct mixes of outcome kinds"
 )
 ASSUMPTIONS = ["handlers raising BaseException subclasses (CancelledError, KeyboardInterrupt) are outside 'any other exception'"]
-REQUIRED_MONITORS = {"one_final_response": 500, "code_and_payload": 500, "no_leak": 500, "neighbour_unaffected": 100, "later_request": 16, "no_site": 8, "neighbour_transport_failure": 30, "same_reaction_alone": 300, "response_usable": 500, "handler_suppressed": 30, "observable_resource": 60}
+REQUIRED_MONITORS = {"one_final_response": 500, "code_and_payload": 500, "no_leak": 500, "neighbour_unaffected": 100, "later_request": 16, "no_site": 8, "neighbour_transport_failure": 30, "same_reaction_alone": 300, "response_usable": 500, "handler_suppressed": 30, "observable_resource": 60, "late_acks_from_peer": 60, "outcome_behind_unacked_neighbour": 60}
 EXHAUSTIVE = {"outcome_table": "every outcome kind x 7 methods (+1 unassigned method code) x CON/NON x {before, after} the empty ACK"}
 
 METHODS = [1, 2, 3, 4, 5, 6, 7]
@@ -52,6 +52,9 @@ def outcomes():
         ("raise-response-wrapping", lambda m: (160, b"")),
         ("renderer-raises", lambda m: (160, b"")),
         ("renderer-returns-none", lambda m: (160, b"")),
+        ("renderer-returns-codeless-message", lambda m: (160, b"")),
+        ("renderer-returns-str", lambda m: (160, b"")),
+        ("renderer-is-coroutine-function", lambda m: (160, b"")),
     ]
     for cls in renderable_classes():
         out.append(("raise-renderable-" + cls.__name__, None))
@@ -98,7 +101,15 @@ def build_site(loop, hlog):
         def to_message(self):
             if self.mode == "raise":
                 raise RuntimeError("renderer failed " + MARK)
+            if self.mode == "codeless":
+                return aiocoap.Message(payload=("no code " + MARK).encode())
+            if self.mode == "str":
+                return "not a message " + MARK
             return None
+
+    class AsyncRenderer(error.RenderableError):
+        async def to_message(self):  # (written as a coroutine function by mistake: the call returns a coroutine)
+            return aiocoap.Message(code=aiocoap.BAD_REQUEST, payload=MARK.encode())
 
     class Outcome(R.Resource):
         async def _handle(self, request):
@@ -150,6 +161,15 @@ def build_site(loop, hlog):
                 raise BadRenderer("raise")
             if name == "renderer-returns-none":
                 raise BadRenderer("none")
+            if name == "renderer-returns-codeless-message":
+                raise BadRenderer("codeless")
+            if name == "renderer-returns-str":
+                raise BadRenderer("str")
+            if name == "renderer-is-coroutine-function":
+                import warnings
+
+                warnings.filterwarnings("ignore", message="coroutine .* was never awaited")
+                raise AsyncRenderer()
             if name.startswith("raise-renderable-"):
                 raise make_renderable(classes[name[len("raise-renderable-") :]], "diag-" + serial.decode())
             raise AssertionError("unknown outcome")
@@ -212,7 +232,7 @@ def plan(tier, seed):
     return [{"name": "c09-%d" % i, "seed": seed * 1000 + i, "index": i, "of": n, "tier": tier, "mixes": {"quick": 25, "thorough": 3000}[tier]} for i in range(n)]
 
 
-def run_requests(reqs, seed, rep, case, with_site=True, fault=None):
+def run_requests(reqs, seed, rep, case, with_site=True, fault=None, ack_delay=0.0):
     """reqs: list of dict(peer, kind: 'o'|'getonly'|'missing', outcome idx, method, type, delay, t)"""
     from harness import scenario, simnet, refcodec as rc
     import asyncio
@@ -228,7 +248,12 @@ def run_requests(reqs, seed, rep, case, with_site=True, fault=None):
 
         def on_msg(peer, src, m, raw):
             if m is not None and m.type == rc.CON and rc.is_response(m.code):
-                peer.send(src, rc.Msg(rc.ACK, 0, m.mid, b"", (), b""))
+                # (a slow peer / long path: separate responses are acknowledged late, so that the next separate
+                # response to this peer has to wait its turn)
+                if ack_delay:
+                    loop.call_later(ack_delay, peer.send, src, rc.Msg(rc.ACK, 0, m.mid, b"", (), b""))
+                else:
+                    peer.send(src, rc.Msg(rc.ACK, 0, m.mid, b"", (), b""))
 
         peers = [simnet.RawPeer(net, ip, port, on_msg) for ip, port in [("10.0.0.2", 40000), ("10.0.0.2", 40001), ("10.0.0.3", 40000)]]
         now = 0.0
@@ -246,7 +271,7 @@ def run_requests(reqs, seed, rep, case, with_site=True, fault=None):
                 opts = ((6, b""), (11, b"od" if q["obs"] == "decline" else b"oa"))
             payload = b"%d;%s;%d" % (q.get("outcome", 0), repr(q["delay"]).encode(), q["serial"])
             peers[q["peer"]].send(S, rc.Msg(q["type"], q["method"], 0x100 + (q["serial"] % 0x7000), bytes([0xC0, q["serial"] & 0xFF, (q["serial"] >> 8) & 0xFF]), opts, payload))
-        await asyncio.sleep(3.0)
+        await asyncio.sleep(3.0 + 8 * ack_delay)
         # a later, ordinary request must be answered normally
         peers[0].send(S, rc.Msg(rc.CON, 1, 0xFFF0, b"\xee\xee", ((11, b"o"),), b"0;0.0;9999"))
         await asyncio.sleep(1.0)
@@ -423,6 +448,21 @@ def run_shard(shard, rep, only=None):
         rep.case(("cell", nm, method, typ, delay), nontrivial=not nm.startswith("return-with-code-2") or method == 9)
         if ci < 40 and ci % 20 == 0 and idx == 0:
             rep.sample({"class": "cell", "outcome": nm, "method": method, "type": typ, "delay": delay})
+    # ---- every outcome as a separate response that has to wait behind a neighbour's unacknowledged one ----
+    for oi, name in enumerate(names):
+        for method in (1, 3):
+            case = ["behind", oi, method]
+            if (oi * 2 + method) % of != idx or (only is not None and only != case):
+                continue
+            reqs = [
+                {"peer": 0, "kind": "o", "outcome": names.index("return-with-code-2.05"), "method": 1, "type": rc.CON, "delay": 0.3, "t": 0.0, "serial": nxt()},
+                {"peer": 0, "kind": "o", "outcome": oi, "method": method, "type": rc.CON, "delay": 0.4, "t": 0.0, "serial": nxt()},
+                {"peer": 0, "kind": "o", "outcome": names.index("return-with-code-2.01"), "method": 2, "type": rc.CON, "delay": 0.5, "t": 0.0, "serial": nxt()},
+            ]
+            res, box = run_requests(reqs, shard["seed"] * 31 + oi, rep, case, ack_delay=0.6)
+            judge(reqs, res, box, rep, case, table)
+            rep.monitor("outcome_behind_unacked_neighbour")
+            rep.case(("behind", name, method), nontrivial=True)
     # ---- concurrent mixes ----
     for mi in range(shard["mixes"]):
         case = ["mix", mi]
@@ -436,7 +476,11 @@ def run_shard(shard, rep, only=None):
         fault = None
         if r.random() < 0.4:
             fault = {"peer": r.choice([1, 2]), "t": r.choice([0.02, 0.1, 0.25, 0.6])}
-        res, box = run_requests(reqs, shard["seed"] * 104729 + mi, rep, case, fault=fault)
+        ack_delay = r.choice([0.0, 0.0, 0.6, 2.5])
+        if ack_delay:
+            rep.monitor("late_acks_from_peer")
+            rep.monitor("separate_response_behind_unacked_one", 1 if sum(1 for q in reqs if q["delay"] >= 0.3 and q["type"] == rc.CON and q["peer"] == reqs[0]["peer"]) >= 2 else 0)
+        res, box = run_requests(reqs, shard["seed"] * 104729 + mi, rep, case, fault=fault, ack_delay=ack_delay)
         judge(reqs, res, box, rep, case, table, fault=fault)
         if fault is not None:
             rep.monitor("neighbour_transport_failure")
@@ -447,7 +491,7 @@ def run_shard(shard, rep, only=None):
             for q in reqs:
                 if fault is not None and q["peer"] == fault["peer"]:
                     continue
-                res1, box1 = run_requests([q], shard["seed"] * 104729 + mi, rep, case)
+                res1, box1 = run_requests([q], shard["seed"] * 104729 + mi, rep, case, ack_delay=ack_delay)
                 if not res1.ok:
                     continue
                 rep.monitor("same_reaction_alone")
